@@ -184,6 +184,8 @@ def run_harness(ctx, binp, runs, timeout=3000):
         smap = getattr(ctx, "wg_sitemap", None)
         if smap and os.path.isfile(smap):
             extra += ["-sitemap", smap]
+        if getattr(ctx, "wg_sparse", False):
+            extra += ["-sparseobs"]
         rc, out = vlib.sh([binp, "-seed", str(ctx.seed), "-out", prefix] + extra + [str(a) for a in args],
                           timeout=timeout)
         if rc != 0:
@@ -275,6 +277,8 @@ def replay_batch(ctx, binp, cands, tag):
         extra += ["-sites", ctx.wg_sites]
     if getattr(ctx, "wg_sitemap", None) and os.path.isfile(ctx.wg_sitemap):
         extra += ["-sitemap", ctx.wg_sitemap]
+    if getattr(ctx, "wg_sparse", False):
+        extra += ["-sparseobs"]
     rc, out = vlib.sh([binp, "-seed", str(ctx.seed), "-out", prefix, "-mode", "replay", "-file", f] + extra,
                       timeout=600)
     if rc != 0 or not os.path.isfile(prefix + ".cases"):
@@ -426,6 +430,53 @@ def stress_run(ctx, binp, judge_name, secs, tag, max_traces=1500):
     return found, info
 
 
+DL_HEADER = ("From Coq Require Import List NArith Bool.\nImport ListNotations.\n"
+             "From GT Require Import Base.Verdict.\nFrom GT Require Import WGJudge.\nLocal Open Scope N_scope.\n")
+
+
+def deadline_probe(ctx, binp):
+    """C02, last clause: WaitTimeout(d) / WaitCTX(WithTimeout(d)) on the real code (free running,
+    real timers) on an idle group, on a group that stays positive, and under release + re-arm
+    cycles with the woken waiter held at its next yield point until the re-arming Inc is done; the
+    measurements are judged by WGJudge.dl_ok.  Returns (failing replay dicts, info)."""
+    prefix = os.path.join(ctx.scratch, "deadline")
+    extra = ["-sites", ctx.wg_sites] if getattr(ctx, "wg_sites", None) and os.path.isfile(ctx.wg_sites) else []
+    rc, out = vlib.sh([binp, "-mode", "deadline", "-out", prefix, "-dms", "300"] + extra, timeout=300)
+    if rc != 0 or not os.path.isfile(prefix + ".cases"):
+        return [], "deadline probe failed: " + out[-400:]
+    terms = open(prefix + ".cases").read().splitlines()
+    jsons = [json.loads(l) for l in open(prefix + ".jsonl").read().splitlines()]
+    bad, nt, err = ctx.judge_cases(DL_HEADER, "dl_case", "dl_judge", terms + ["DlCase 0 1 300 5000 2 0 0"],
+                                   shard=1000, nontrivial="dl_nontrivial", tag="deadline", timeout=300)
+    if err:
+        return [], "judging the deadline probe failed: " + err[:400]
+    if (len(terms), 1) not in bad:
+        return [], "the deadline judge did not flag its canary case"
+    found = []
+    for i, code in bad:
+        if i >= len(jsons):
+            continue
+        j = jsons[i]
+        found.append({"kind": "deadline", "api": j["api"], "scenario": j["scenario"],
+                      "call": "%s(%d ms)" % (j["api"], j["d_ms"]) + (" (context.WithTimeout)" if j["api"] == "WaitCTX" else ""),
+                      "measured_ms": j["elapsed_ms"], "bound_ms": 2 * j["d_ms"],
+                      "answer": ["nil", "the deadline's error", "no answer within 5 d"][j["result"]],
+                      "driver": {"zero": "idle group", "positive": "one Inc, never released",
+                                 "rearm": "one Inc, then release + re-arm cycles: Dec (count 0, wait channel closed, the waiter's "
+                                          "select wakes), the waiter is held at its next yield point, Inc, the waiter goes on"}[j["scenario"]],
+                      "cycles": ["Dec at %d ms%s" % (c["at_ms"], ", waiter held at site %d until the Inc was done" % c["held_at"] if c["held"] else "")
+                                 for c in (j.get("cycles") or [])],
+                      "measurements": j["attempts"],
+                      "what": "the call did not answer within 2 d of its start" if j["scenario"] == "rearm" else
+                              "wrong answer or answer outside [0.8 d, 2 d]" if j["scenario"] == "positive" else "no immediate nil on an idle group",
+                      "replay_cmd": "harness c01 -mode deadline (./check C02 re-runs it)"})
+    ctx.cov["deadline_probe"] = {"cases": len(jsons), "violating": len(found), "with_held_waiter": nt,
+                                 "d_ms": 300, "bound": "2 d",
+                                 "measured": [{"api": j["api"], "scenario": j["scenario"], "elapsed_ms": j["elapsed_ms"],
+                                               "answer": j["result"], "cycles": len(j.get("cycles") or [])} for j in jsons]}
+    return found, "%d measurements, %d violate their bound" % (len(jsons), len(found))
+
+
 def run_check(ctx, pid):
     ctx.trusted = TRUSTED
     ctx.assumptions = ASSUMPTIONS
@@ -463,6 +514,9 @@ def run_check(ctx, pid):
     # the modelled ones; otherwise the recorded traces are judged by the monitor alone
     structural = which in ("current", "equivalent", "same-sites")
     judge_name = {"C01": "c01", "C02": "c02"}[pid] + ("_judge" if structural else "_trace_judge")
+    # a source whose operations are not the modelled ones: Count() may have effects of its own, the
+    # observer calls it only where the property speaks about it (no Add in flight)
+    ctx.wg_sparse = not structural
     ctx.cov["judging"] = ("per-step comparison with the model + monitor" if structural else
                           "trace only (the source's shared-memory operations are not the modelled ones): monitor verdicts, no model comparison")
     quick = ctx.tier == "quick"
@@ -531,8 +585,13 @@ def run_check(ctx, pid):
                 od = sum(1 for _, c in obad if c == 2)
                 ctx.cov["pinned_model_differences"] = od
                 ctx.log("the %d traces compared with the model of the pinned code (wgo_exec): %d differ" % (len(terms), od))
+    deadline_found = []
+    if pid == "C02":
+        t0 = time.time()
+        deadline_found, dinfo = deadline_probe(ctx, binp)
+        ctx.log("deadline probe (WaitTimeout / WaitCTX under release + re-arm): %s, %.1fs" % (dinfo, time.time() - t0))
     searched = len(terms)
-    if (broken or diffs or ctx.cov.get("monitor_cross_check_disagreements")) and not fails:
+    if (broken or diffs or ctx.cov.get("monitor_cross_check_disagreements")) and not fails and not deadline_found:
         # something broke but no recorded trace violates the property yet: search schedules on
         # the real code, then let the Go scheduler loose on it for a moment, before saying that
         # no failing input was found
@@ -584,6 +643,13 @@ def run_check(ctx, pid):
                "also_unchecked": [w for w, _, _ in broken],
                "replay_cmd": "./check %s --replay <this file>" % pid}
         ctx.report(rep, features(j, code, pid), failing_input=True)
+    for f in deadline_found[:2]:
+        rep = dict(f)
+        rep["verdict"] = "WaitTimeout / WaitCTX does not honour its deadline (WGJudge.dl_ok = false on the measurement)"
+        rep["also_unchecked"] = [w for w, _, _ in broken]
+        ctx.report(rep, {"kind": "deadline", "api": f["api"], "scenario": f["scenario"]}, failing_input=True)
+    if len(deadline_found) > 2:
+        ctx.violations += ["(not written)"] * (len(deadline_found) - 2)
     for f in stress_found[:2]:
         rep = dict(f)
         rep["verdict"] = "failing input found by the free-running run of the real code"
@@ -595,7 +661,7 @@ def run_check(ctx, pid):
         ctx.report({"unchecked": "cross-check of the two formulations of the C01 monitor (c01_ok vs c01_decl) on the recorded traces",
                     "detail": "%d traces judged differently" % ctx.cov["monitor_cross_check_disagreements"]},
                    {"kind": "monitor_cross_check"}, failing_input=False)
-    if not fails and not stress_found:
+    if not fails and not stress_found and not deadline_found:
         for i, code in diffs[:2]:
             j = jsons[i]
             rep = {"case": view(j), "replay_input": {"progs": j["progs"], "sched": j["sched"]},
@@ -682,6 +748,18 @@ def replay(ctx, pid, path):
     """re-run the recorded program + schedule on the current tree, judge it, print the steps"""
     rep = json.load(open(path))
     inp = rep.get("replay_input")
+    if rep.get("kind") == "deadline":
+        binp, ir, log = prepare(ctx)
+        if not binp:
+            print(log)
+            return 2
+        found, info = deadline_probe(ctx, binp)
+        print(json.dumps(ctx.cov.get("deadline_probe"), indent=1))
+        print(info)
+        for f in found:
+            print("VIOLATION reproduced: %s, %s: answered %s after %d ms (bound %d ms)" % (
+                f["call"], f["driver"], f["answer"], f["measured_ms"], f["bound_ms"]))
+        return 1 if found else 0
     if not inp:
         print(json.dumps(rep, indent=1)[:3000])
         print("this replay names an unchecked obligation; re-run ./check %s" % pid)
@@ -699,6 +777,9 @@ def replay(ctx, pid, path):
     if ir:
         tok, which, _ = tie(ctx, ir)
     structural = which in ("current", "equivalent", "same-sites")
+    ctx.wg_sparse = not structural
+    if ctx.wg_sparse:
+        terms, jsons = replay_batch(ctx, binp, [(progs, inp["sched"])], "replay2")
     judge_name = {"C01": "c01", "C02": "c02"}[pid] + ("_judge" if structural else "_trace_judge")
     bad, _, err = judge(ctx, judge_name, [terms[0]], "replay")
     print(json.dumps(view(jsons[0]), indent=1))
